@@ -105,6 +105,13 @@ class NoText(Exception):
     pass
 
 
+class VfSubText(CHText):
+    """a text class of the application (it only adds a method)"""
+
+    def shout(self):
+        return self.plain_text().upper()
+
+
 class Unprintable:
     """an object that cannot be turned into text"""
 
@@ -233,6 +240,17 @@ def run_history(ctx, rng, script=None):
                         r += [b, [c_obj, b, "-"], c_obj] if rec[2] % 2 else ((c_obj, b), "-", [b])
                         mr = ma + (mb + mc + mb + [("-", sgr.DEFAULT)] + mc if rec[2] % 2 else
                                    mc + mb + [("-", sgr.DEFAULT)] + mb)
+                    elif isinstance(a, CHText) and rec[2] % 6 == 1:
+                        # the caller composed a cell once and names it twice: the SAME list object at two places of
+                        # one argument (to '+=' or to the constructor)
+                        cell = [c_obj, "-"]
+                        if rec[1] % 2:
+                            r += [cell, b, cell]
+                        else:
+                            r = CHText(r, [cell, b, (cell, cell)][:2 + rec[1] % 4 // 2], cell)
+                        mr = ma + mc + [("-", sgr.DEFAULT)] + mb + (
+                            (mc + [("-", sgr.DEFAULT)]) * 2 if not rec[1] % 2 and rec[1] % 4 // 2 else []) + mc + [("-", sgr.DEFAULT)]
+                        ctx.count("arguments_that_name_one_list_object_twice")
                     elif isinstance(a, CHText):
                         r += [b, c_obj] if rec[2] % 2 else (b, c_obj)
                         mr = ma + mb + mc
@@ -440,6 +458,12 @@ def run_history(ctx, rng, script=None):
             ctx.count("equality_probes", 2)
             if not (rt == canon and canon == rt) or (rt != canon):
                 fail("equal-looking-texts-compare-unequal", {"op": rec, "a": str(rt), "b": str(canon)})
+            # ... also when one of the two is a text of a class the application derived from CHText
+            sub = VfSubText(rt)
+            ctx.count("equality_probes", 4)
+            if not (sub == canon and canon == sub and sub == rt and rt == sub) or sub != canon or canon != sub:
+                fail("equal-looking-texts-compare-unequal", {"op": rec, "a": str(rt), "b": str(canon),
+                                                             "classes": "CHText and a class derived from it"})
             if all(st == sgr.DEFAULT for _, st in mr):
                 ctx.count("equality_probes")
                 if not (rt == text):
